@@ -19,6 +19,16 @@ pub mod execution_profile;
 
 mod execution;
 
+// Verification seam (H-EXEC): `execution` is private to this module; the cfg(scylla_verif)-only hook in
+// `crate::verif::exec` needs to name its crate-visible items. Additive, absent from normal builds.
+#[cfg(scylla_verif)]
+pub(crate) mod verif_execution {
+    pub(crate) use super::execution::{
+        AttemptTarget, RequestExecutionOutcome, RequestExecutionParams, RequestPaging,
+        RunRequestResult,
+    };
+}
+
 pub mod pager;
 
 pub mod client_routes;
